@@ -140,6 +140,21 @@
                             eis (map env-tok eps)]
                         (put objs k (string "F " di (sp (map string eis))))
                         (string "r" k))
+            :fiber (let [k (mark x)
+                         [flags frame stackstart stacktop maxstack frames env child last opaque] (c09/fiber-info x)]
+                     (when opaque (error "unsupported fiber (running or with C frames)"))
+                     # visit order of marshal_one_fiber: per frame (top first) function, environment, slots; then env table, child, last value
+                     (def fts (map (fn [[ff pf pc func ep slots]]
+                                     (def ft (tok func))
+                                     (def et (if ep (string (env-tok ep)) "_"))
+                                     (def sts (map tok slots))
+                                     (string/format "%d %d %d %s %s %d%s" ff pf pc ft et (length sts) (sp sts)))
+                                   frames))
+                     (def et (if env (tok env) "_"))
+                     (def ct (if child (tok child) "_"))
+                     (def lt (tok last))
+                     (put objs k (string/format "Y %d %d %d %d %d %s %s %s %d%s" flags frame stackstart stacktop maxstack et ct lt (length fts) (sp fts)))
+                     (string "r" k))
             (errorf "unsupported %s" (type x))))))))
   (def r (tok root))
   (string r (string/join (map |(string " | " $) objs)) " # " (string/join defs " | ") " # " (string/join envs " | ")))
@@ -216,6 +231,17 @@
   (add "long-body" (fn [] (eval-string (string "(fn [x] (var y x) " (string/join (seq [i :range [0 300]] (string "(set y (+ y " (- i 150) "))")) " ") " y)"))))
   (add "core-fns" (fn [] [map filter (fn [xs] (map inc xs)) defn]))
   (add "data-mix" (fn [] (def s "shared") (def f (fn [] s)) @{:f f :s s :g [f f] :t (fn [] [s f])}))
+  # suspended fibers: frames, stack slots, closure environments still on the fiber's stack, child chain, fiber env table
+  (add "fiber-new" (fn [] (fiber/new (fn [x] (+ x 1)))))
+  (add "fiber-yielded" (fn [] (def f (fiber/new (fn [] (var a 10) (yield a) (set a (+ a 1)) (yield a) a))) (resume f) f))
+  (add "fiber-dead" (fn [] (def f (fiber/new (fn [] 42))) (resume f) f))
+  (add "fiber-error" (fn [] (def f (fiber/new (fn [] (error "boom")) :e)) (resume f) f))
+  (add "fiber-nested-frames" (fn [] (defn inner [k] (yield k) (* k 2)) (defn outer [k] (+ 1 (inner (+ k 1)))) (def f (fiber/new (fn [] (outer 5)))) (resume f) f))
+  (add "fiber-env-on-stack" (fn [] (def f (fiber/new (fn [] (var n 0) (def inc (fn [] (++ n))) (def get (fn [] n)) (yield [inc get]) (inc) (yield n) n)))
+                                   (def cl (resume f)) [f cl]))
+  (add "fiber-child" (fn [] (def f (fiber/new (fn [] (def c (fiber/new (fn [] (yield 1) (yield 2) 3) :y)) (resume c) (yield c) (resume c)))) (resume f) f))
+  (add "fiber-with-env" (fn [] (def f (fiber/new (fn [] (yield (dyn :x)) 1))) (fiber/setenv f @{:x 10 :self-ref f}) (resume f) f))
+  (add "fiber-shared" (fn [] (def f (fiber/new (fn [a] (yield a) a))) (resume f @[1 2]) @[f f {:k f}]))
   # environment still on the stack of the running fiber: early-detach path of marshal_one_env
   out)
 
@@ -252,7 +278,15 @@
   (repeat ncases
     (def [fsrc np] (gen-fn-src (+ 1 (rnd 3)) []))
     (def src (string "(" fsrc (string/repeat " 1" np) ")"))
-    (def g (try (eval-string src) ([e] (string "generator: " e))))
+    (def g (try
+             (if (chance 25)
+               # the closures are made inside a fiber that is then suspended: their environments are still on its stack
+               (let [fb (eval-string (string "(fiber/new (fn [] (var acc @[]) (def cl " src ") (array/push acc cl) (def peek (fn [] acc)) (def poke (fn [x] (set acc x))) (yield [cl peek poke]) (yield acc) cl) :y)"))
+                     cl (resume fb)]
+                 (when (chance 50) (resume fb))
+                 (if (chance 50) [fb cl] @[cl fb]))
+               (eval-string src))
+             ([e] (string "generator: " e))))
     (run-case idx (if (chance 30) @[g (gen-int) g] g))
     (gccollect)
     (++ idx)))
